@@ -19,7 +19,16 @@ replay (the releases of spawn's error path commute: `undo_releases_commute`).
 Result classes include types whose `Option<T>::None` is not the all-zero pattern (bool, char, Ordering, field-less
 enum, Option<u32>, Result<u8,u8>, a struct(bool) with a counting destructor): "None exactly when the closure
 panicked, Some(v) with the exact value otherwise" is judged for them too, joined and dropped (a value nobody made must
-never be dropped)."""
+never be dropped).
+
+Classes 13 / 14 are results whose destructor panics (13: wherever it runs — the probe holds such a closure until its dropped
+handle is gone and forgets a joined value; 14: only on a spawned thread, so every order of join / drop-before / drop-while /
+drop-after is run freely).  A destructor that panics on the spawned thread starts the panic handler in the middle of the
+thread's epilogue: every release the epilogue did before that point is repeated by the handler.  The destructor's entry is a
+marker system call, so its position relative to the releases is observed, judged (double / foreign free, futex call on a freed
+block, exactly one destructor run per returned value, on the side that frees the block, heap at baseline + the closures of the
+panicked threads) and replayed on the model (`tDropVal` / `tDropPanic`).  The allocator wrapper poisons released blocks and
+keeps them in a quarantine ring, so a read through a dangling pointer sees 0xDD.. and a double release is reported, not executed."""
 import concurrent.futures as cf
 import os
 import re
@@ -52,7 +61,11 @@ CLASSES = {0: "zst", 1: "u8", 2: "u64", 3: "[u8;4096]", 4: "align64", 5: "Box<[u
            # slot that is merely zeroed instead of initialised to `None` reads back as `Some(<zero value>)`
            6: "bool", 7: "char", 8: "core::cmp::Ordering", 9: "fieldless enum", 10: "Option<u32>", 11: "Result<u8,u8>",
            # the same with a destructor that counts its runs: a value fabricated from a zeroed slot is *dropped* by a dropped handle
-           12: "struct(bool) with Drop"}
+           12: "struct(bool) with Drop",
+           # a result whose DESTRUCTOR PANICS: when the handle was dropped before the closure returned the runtime runs it on the
+           # spawned thread, in the middle of the thread's epilogue — the panic handler then starts from there
+           13: "struct with Drop that panics", 14: "struct with Drop that panics on a spawned thread only"}
+BOMBS = (13, 14)
 NCLASS = len(CLASSES)
 
 
@@ -186,7 +199,8 @@ def parse_out(text):
         if w[0] == "class":
             classes[int(w[1])] = (int(w[2]), int(w[3]))
         elif w[0] == "batch":
-            cur = {"n": int(w[2]), "spawn": {}, "join": {}, "drop": set(), "runs": {}, "before": None, "after": None, "ended": False, "drops": None}
+            cur = {"n": int(w[2]), "spawn": {}, "join": {}, "drop": set(), "runs": {}, "before": None, "after": None, "ended": False, "drops": None,
+                   "bombs": None}
             batches[int(w[1])] = cur
         elif cur is None:
             continue
@@ -203,6 +217,8 @@ def parse_out(text):
                                       "made": int(w[6]) if len(w) > 6 else None}
         elif w[0] == "drops":
             cur["drops"] = (int(w[1]), int(w[2]))
+        elif w[0] == "bombs":
+            cur["bombs"] = tuple(int(x) for x in w[1:5])
         elif w[0] == "end":
             cur["ended"] = True
     return batches, classes
@@ -237,6 +253,8 @@ class Inst:
         self.rval = "unset"
         self.edigest = None
         self.hung = None
+        self.dmarks = []                           # destructor entries of this id's result: (pos, 'x' returns | 'X' panics, pid)
+        self.forgot = 0
 
 
 def futex_word(inst):
@@ -266,7 +284,19 @@ def analyze_batch(recs, exited, lo, hi, main, specs, cfg, classes, textb, nlines
     stats = {"alloc_mmap": 0, "alloc_munmap": 0, "other_vm": 0}
     window = recs[lo:hi]
     stack_ranges = {}
+    word_of = {}                                   # futex word address -> the instance whose shared block holds it
     for r in window:
+        if is_marker(r) and chr(r["args"][1] & 0xff) in "xXf" and r["args"][2] in insts:
+            k = chr(r["args"][1] & 0xff)
+            if k == "f":
+                insts[r["args"][2]].forgot += 1
+            else:
+                insts[r["args"][2]].dmarks.append((r["entry"], k, r["pid"]))
+        if r["name"] == "futex" and r["args"] and r["args"][0] in word_of:
+            wi = word_of[r["args"][0]]
+            if wi.tsm and wi.tsm[0] not in heap_live:
+                problems.append(("use-after-free", "futex call by tid %d on the exit word %#x of id %d after its shared block %#x was released" % (
+                    r["pid"], r["args"][0], wi.id, wi.tsm[0])))
         if is_heap(r):
             ptr, size, al, op = r["args"][1], r["args"][2], r["args"][3] >> 1, r["args"][3] & 1
             if op == 0:
@@ -333,6 +363,7 @@ def analyze_batch(recs, exited, lo, hi, main, specs, cfg, classes, textb, nlines
                     nalloc += 1
                     if nalloc == 1:
                         cur.tsm = (ptr, size, al, r["entry"])
+                        word_of[ptr + 4] = cur
                         add(cur, r["entry"], "hAllocTsm")
                     elif nalloc == 2:
                         cur.box = (ptr, size, al, r["entry"])
@@ -400,6 +431,7 @@ def analyze_batch(recs, exited, lo, hi, main, specs, cfg, classes, textb, nlines
         trecs = getattr(inst, "trecs", [])
         inst.t_settid = inst.t_free_tsm = inst.t_free_tls = inst.t_free_box = inst.t_munmap = None
         inst.t_begin = inst.t_end = inst.t_panic = None
+        inst.t_all = []                            # every observed operation of the thread, in order: (pos, model token)
         nb = 0
         after_munmap = False
         for r in trecs:
@@ -422,25 +454,36 @@ def analyze_batch(recs, exited, lo, hi, main, specs, cfg, classes, textb, nlines
             elif is_heap(r):
                 ptr, op = r["args"][1], r["args"][3] & 1
                 if op == 1:
+                    # scalars: the first occurrence (a second release is the heap oracle's business); t_all: every one
                     if inst.tsm and ptr == inst.tsm[0]:
-                        inst.t_free_tsm = r["entry"]
+                        inst.t_free_tsm = r["entry"] if inst.t_free_tsm is None else inst.t_free_tsm
+                        inst.t_all.append((r["entry"], "tFreeTsm"))
                     elif inst.tls and ptr == inst.tls[0]:
-                        inst.t_free_tls = r["entry"]
+                        inst.t_free_tls = r["entry"] if inst.t_free_tls is None else inst.t_free_tls
+                        inst.t_all.append((r["entry"], "tFreeTls"))
                     elif inst.box and ptr == inst.box[0]:
-                        inst.t_free_box = r["entry"]
+                        inst.t_free_box = r["entry"] if inst.t_free_box is None else inst.t_free_box
+                        inst.t_all.append((r["entry"], "tFreeBox"))
             elif r["name"] == "set_tid_address":
                 if r["args"][0] == 0:
-                    inst.t_settid = r["entry"]
+                    inst.t_settid = r["entry"] if inst.t_settid is None else inst.t_settid
+                    inst.t_all.append((r["entry"], "tSetTid"))
             elif r["name"] == "munmap":
                 if inst.stack and r["args"][:2] == [inst.stack[0], inst.stack[1]]:
                     if inst.t_munmap is not None:
                         problems.append(("stack", "stack of id %d unmapped twice" % inst.id))
                     inst.t_munmap = r["entry"]
+                    inst.t_all.append((r["entry"], "tMunmap"))
                     after_munmap = True
                 elif r["args"][0] in stack_ranges:
                     problems.append(("stack", "thread of id %d unmapped the stack of id %d" % (inst.id, stack_ranges[r["args"][0]].id)))
+                else:
+                    stats["other_vm"] += 1         # the allocator gave memory back while a spawned thread held its lock
+            elif r["name"] in ("mmap", "mremap", "brk"):
+                stats["other_vm"] += 1
             elif r["name"] == "exit":
                 inst.t_exit = r["entry"]
+                inst.t_all.append((r["entry"], "tExit"))
         inst.nbegin = nb
         if inst.tid is not None:
             inst.t_exited = exited.get(inst.tid)
@@ -520,6 +563,10 @@ def analyze_batch(recs, exited, lo, hi, main, specs, cfg, classes, textb, nlines
         twon = joined or (inst.hwon is False) or (inst.hwon is None)
         if inst.hwon is None and not joined:
             twon = inst.t_settid is None and inst.t_free_tsm is None
+        # the destructor of this id's result, entered on the spawned thread itself (classes 13 / 14)
+        own = [(p_, k_) for p_, k_, pid_ in inst.dmarks if pid_ == inst.tid]
+        inst.t_dmark = own[0] if own else None
+        inst.dpanic = bool(own and own[0][1] == "X")
         if inst.t_end is not None:
             add(inst, inst.t_end, "tRet=%d" % inst.edigest)
             add(inst, inst.t_end + 0.1, "tWrite")
@@ -528,6 +575,25 @@ def analyze_batch(recs, exited, lo, hi, main, specs, cfg, classes, textb, nlines
             else:
                 nxt = inst.t_settid if inst.t_settid is not None else (inst.t_free_tsm if inst.t_free_tsm is not None else inst.t_end + 0.2)
                 add(inst, nxt - 0.3, "tCas=0")
+                if inst.dpanic:
+                    # the destructor panicked: #[panic_handler] starts here — tls read, tls freed, the CAS (lost again), ...
+                    dpos = inst.t_dmark[0]
+                    add(inst, dpos, "tDropPanic")
+                    add(inst, dpos + 0.1, "tPanicRead")
+                    tl = [p_ for p_, t_ in inst.t_all if t_ == "tFreeTls" and p_ > dpos]
+                    if tl:
+                        later = [p_ for p_, t_ in inst.t_all if t_ in ("tSetTid", "tFreeTsm") and p_ > tl[0]]
+                        add(inst, max((later[0] - 0.3) if later else tl[0] + 0.2, tl[0] + 0.1), "tCas=0")
+                elif inst.t_dmark is not None:
+                    # observed, returned normally.  Its order against the clear-tid reset is not something the model relies on
+                    # (both precede the release of the block): handed over in the model's order
+                    dpos = inst.t_dmark[0]
+                    if inst.t_settid is not None and dpos < inst.t_settid and (inst.t_free_tsm is None or inst.t_settid < inst.t_free_tsm):
+                        dpos = inst.t_settid + 0.05
+                    add(inst, dpos, "tDropVal")
+                elif inst.t_free_tsm is not None and cfg.get("dropValT"):
+                    # a result type whose destructor (if any) the probe cannot see: the model's step, right before the release
+                    add(inst, inst.t_free_tsm - 0.05, "tDropVal")
         elif inst.t_panic is not None:
             add(inst, inst.t_panic, "tPanic")
             add(inst, inst.t_panic + 0.1, "tPanicRead")
@@ -537,10 +603,8 @@ def analyze_batch(recs, exited, lo, hi, main, specs, cfg, classes, textb, nlines
                 else:
                     nxt = inst.t_settid if inst.t_settid is not None else (inst.t_free_tsm if inst.t_free_tsm is not None else inst.t_free_tls + 0.2)
                     add(inst, max(nxt - 0.3, inst.t_free_tls + 0.1), "tCas=0")
-        for pos, tok in ((inst.t_settid, "tSetTid"), (inst.t_free_tsm, "tFreeTsm"), (inst.t_free_tls, "tFreeTls"),
-                         (inst.t_free_box, "tFreeBox"), (inst.t_munmap, "tMunmap"), (inst.t_exit, "tExit")):
-            if pos is not None:
-                add(inst, pos, tok)
+        for pos, tok in inst.t_all:
+            add(inst, pos, tok)
         if inst.t_exit is not None:
             kpos = inst.t_exited if inst.t_exited is not None else inst.t_exit + 0.5
             if h_need_zero is not None:
@@ -568,7 +632,7 @@ def expected_digest(cls, token, edigest):
         return 0
     if cls == 1:
         return token & 0xff
-    if cls in (2, 4, 5):
+    if cls in (2, 4, 5) + BOMBS:
         return token
     k = token >> 1
     if cls in (6, 12):
@@ -652,8 +716,23 @@ def judge_batch(bno, specs, insts, problems, stats, heap_before, heap_live, tb, 
             if fl is not None and inst.tid is not None and (inst.t_exit is None or fl < inst.t_exit):
                 bad.append(("free-before-exit", "id %d: %s freed the shared block (line %d) %s" % (
                     iid, sp["action"], fl, "before the thread issued exit (line %d)" % inst.t_exit if inst.t_exit is not None else "of a thread that never issued exit")))
-            if sp["panic"] and inst.box:
-                leaked_expect.append(inst.box[0])
+            if (sp["panic"] or getattr(inst, "dpanic", False)) and inst.box:
+                leaked_expect.append(inst.box[0])      # a thread that panicked (closure, or destructor of its unread result) never drops its closure
+            if sp["class"] in BOMBS and inst.tid is not None and not any(k == "hang" for k, _ in bad):
+                # the returned value's destructor: exactly one run (none for a panicked closure, none for a joined class-13 value,
+                # which the probe forgets), and on the side that releases the shared block
+                nd = len(inst.dmarks)
+                want = 0 if (sp["panic"] or (sp["class"] == 13 and sp["action"] == "join")) else 1
+                if nd != want:
+                    bad.append(("value-drop", "id %d (class %d, %s, %s): the destructor of the returned value ran %d times, expected %d" % (
+                        iid, sp["class"], "panic" if sp["panic"] else "ret", sp["action"], nd, want)))
+                elif nd == 1 and sp["action"] != "join" and inst.hwon is not None:
+                    on_thread = inst.dmarks[0][2] == inst.tid
+                    if on_thread != bool(inst.hwon):
+                        bad.append(("value-drop", "id %d: handle %s the flag but the unread result was dropped by %s" % (
+                            iid, "won" if inst.hwon else "lost", "the thread" if on_thread else "the handle side")))
+                if sp["class"] == 13 and sp["action"] == "join" and not sp["panic"] and inst.forgot != 1 and tb["join"].get(iid, {}).get("val") is not None:
+                    bad.append(("probe", "id %d: joined class-13 value not forgotten exactly once (%d)" % (iid, inst.forgot)))
         ca = getattr(inst, "clone_args", None)
         if inst.tsm and ca and len(ca) > 3 and inst.tid is not None:
             off = ca[3] - inst.tsm[0]
@@ -680,11 +759,18 @@ def judge_batch(bno, specs, insts, problems, stats, heap_before, heap_live, tb, 
         bad.append(("value-drop", "%d values with a destructor were returned by closures of this batch, their destructor ran %d times (a value nobody made was "
                     "dropped, or a returned value never was); panicked threads of that class: %s" % (
                         made, dropped, [sp["id"] for sp in specs if sp["class"] == 12 and sp["panic"]])))
+    if tb["ended"] and tb.get("bombs") and not any(k == "hang" for k, _ in bad):
+        made, ran, forgot, refused = tb["bombs"]
+        if made != ran + forgot:
+            bad.append(("value-drop", "%d values with a panicking destructor were returned in this batch, the destructor was entered %d times (%d joined values "
+                        "forgotten by the probe)" % (made, ran, forgot)))
+        if refused:
+            bad.append(("double-free", "the allocator wrapper refused %d release(s) of a block that was already released (still in its quarantine)" % refused))
     if tb["ended"] and not any(k == "hang" for k, _ in bad):
         new_live = sorted(p for p in heap_live if p not in heap_before)
         gone = sorted(p for p in heap_before if p not in heap_live)
         if sorted(new_live) != sorted(leaked_expect) or gone:
-            bad.append(("heap-baseline", "blocks live after the batch beyond the baseline: %s; expected only the closures of panicked threads %s; baseline blocks freed: %s" % (
+            bad.append(("heap-baseline", "blocks live after the batch beyond the baseline: %s; expected only the closures of panicked threads (closure panic, or panic of the destructor of the unread result on the thread) %s; baseline blocks freed: %s" % (
                 [hex(p) for p in new_live], [hex(p) for p in leaked_expect], [hex(p) for p in gone])))
         b, a = tb["before"], tb["after"]
         if b and a:
@@ -802,7 +888,8 @@ def check_model(it):
     if not m.startswith("accept"):
         return "model does not accept the observed history: " + m
     f = dict(x.split("=", 1) for x in m.split()[1:] if "=" in x)
-    npanic = sum(1 for sp in it["specs"] if sp["panic"] and it["insts"][sp["id"]].tid is not None)
+    ndp = sum(1 for sp in it["specs"] if getattr(it["insts"][sp["id"]], "dpanic", False))
+    npanic = sum(1 for sp in it["specs"] if sp["panic"] and it["insts"][sp["id"]].tid is not None) + ndp
     if f.get("bad") != "false":
         return "model: a touch of a released resource on this history (" + m + ")"
     if f.get("raced") != "false":
@@ -811,6 +898,8 @@ def check_model(it):
         return "model: not every instance complete at the end of the batch (" + m + ")"
     if f.get("maps") != "0" or f.get("heap") != str(npanic) or f.get("leaked") != str(npanic):
         return "model ledger not at baseline + panicked closures (" + m + ")"
+    if f.get("dpanics", "0") != str(ndp):
+        return "model: %s destructor panics, observed %d (%s)" % (f.get("dpanics"), ndp, m)
     pred = {}
     if f.get("joins"):
         for x in f["joins"].split(","):
@@ -857,13 +946,41 @@ def replay_of(it, script, exe, inject=None):
             "judge": it.get("judge"), "model": it.get("model"), "model_input": it.get("line", "")[:6000]}
 
 
-def run_scenarios(ctx, exe, cfg, nproc, batches_per_proc, nmax, label):
+def destructor_sweep(r, rounds):
+    """batches around a result whose destructor panics (classes 13 / 14): every order of {joined, handle dropped before the closure
+    returns, while it finishes, after the thread is gone} (class 13: joined / dropped before — anything else would run the
+    destructor on the main thread and end the probe), alone and among other threads, so that the panic handler is entered from
+    the middle of the thread's epilogue many times per run whatever the random stream does"""
+    out = []
+    for k in range(rounds):
+        ids = r.shuffle(list(range(64)))
+        one = [(13, "join", 0, 0), (13, "join", 1000, 0), (13, "dropnow", 0, 0), (13, "drop", 0, r.choice([0, 300, 3000])),
+               (14, "join", 0, 1000), (14, "join", 1000, 0), (14, "dropnow", 3000, 0), (14, "dropnow", 1000, 0), (14, "dropnow", 0, 0),
+               (14, "drop", 0, 3000), (14, "drop", 1000, 0), (14, "drop", 300, 300), (14, "drop", r.choice(DELAYS), r.choice(DELAYS))]
+        # alone
+        for cls, act, d, d2 in one:
+            out.append([{"id": ids[0], "panic": False, "d": d, "class": cls, "action": act, "d2": d2}])
+        # all of them live together, with ordinary threads (returning and panicking) in between
+        mixed = []
+        for j, (cls, act, d, d2) in enumerate(r.shuffle(one)):
+            mixed.append({"id": ids[1 + 2 * j], "panic": False, "d": d, "class": cls, "action": act, "d2": d2})
+            mixed.append({"id": ids[2 + 2 * j], "panic": r.chance(1, 3), "d": r.choice(DELAYS), "class": r.choice([0, 2, 3, 5, 12, 13, 14]),
+                          "action": r.choice(["join", "drop", "dropnow"]), "d2": r.choice(DELAYS)})
+        out.append(mixed)
+        # many destructor panics at once: the handlers' releases interleave
+        out.append([{"id": i, "panic": False, "d": r.choice([300, 1000, 3000]), "class": r.choice(BOMBS), "action": "dropnow", "d2": 0}
+                    for i in ids[:r.range(8, 24)]])
+    return out
+
+
+def run_scenarios(ctx, exe, cfg, nproc, batches_per_proc, nmax, label, jobs=None):
     """runs nproc probe processes of batches_per_proc batches each; returns list of (result item, script)"""
     r = ctx.rng
-    jobs = []
-    for _ in range(nproc):
-        bs = [gen_batch(r, nmax) for _ in range(batches_per_proc)]
-        jobs.append(bs)
+    if jobs is None:
+        jobs = []
+        for _ in range(nproc):
+            bs = [gen_batch(r, nmax) for _ in range(batches_per_proc)]
+            jobs.append(bs)
 
     def work(bs):
         script = script_of(bs)
@@ -901,7 +1018,11 @@ def account(ctx, items, exe, pid_kinds=None, inject=None):
                 ctx.hist("spawn_error_release_order_observed", ">".join(t[5:] for t in inst.undo_order))
             if sp["action"] != "join" and inst.hwon is not None and inst.tid is not None:
                 ctx.hist("flag_cas_winner", "handle" if inst.hwon else "thread")
-            ctx.count((sp["panic"], sp["class"], sp["action"], inst.path, inst.mmap_fail, inst.clone_fail))
+            ctx.count((sp["panic"], sp["class"], sp["action"], inst.path, inst.mmap_fail, inst.clone_fail, getattr(inst, "dpanic", False)))
+            if sp["class"] in BOMBS and inst.tid is not None and not sp["panic"]:
+                where = "forgotten by the probe" if inst.forgot else ("none" if not inst.dmarks else
+                        ("thread" if inst.dmarks[0][2] == inst.tid else "handle side") + (":panics" if inst.dmarks[0][1] == "X" else ":returns"))
+                ctx.hist("panicking_destructor_runs", "class%d %s -> %s" % (sp["class"], sp["action"], where))
         ctx.hist("threads_per_batch", min(64, 1 << (len(it["specs"]) - 1).bit_length()))
         kinds = sorted({k for k, _ in it["judge"]})
         # `model-map`: the observation could not be mapped onto the model's events (an allocation / futex operation the mapping
@@ -933,7 +1054,7 @@ def account(ctx, items, exe, pid_kinds=None, inject=None):
 
 
 C05_KINDS = {"hang", "spawn-failure-not-error", "runs-once", "spawn", "join", "join-value", "join-visibility", "join-early", "layout", "value-drop"}
-C06_KINDS = {"double-free", "stack-use-after-unmap", "stack", "stack-leak", "tid-not-reset", "heap-baseline", "thread-leak", "vm-baseline",
+C06_KINDS = {"double-free", "use-after-free", "stack-use-after-unmap", "stack", "stack-leak", "tid-not-reset", "heap-baseline", "thread-leak", "vm-baseline",
              "free-before-exit", "value-drop"}
 
 
@@ -1057,6 +1178,12 @@ ASSUMPTIONS = [
     "flag CAS = atomic RMW reading the latest value (exactly one winner); its AcqRel/Relaxed orderings are pinned from the source but the proofs do not need them (the freed block is protected by the kernel-exit edge and by set_tid_address(0))",
     "strace -f reports causally ordered events of different threads in causal order (each ptrace stop is processed before the tracee continues); invisible steps (loads, the two CASes, the kernel's clear) are placed inside their observation windows by the stated rules before the model replays the history",
     "the `__clone` trampoline, the stack-unmap epilogue asm and `_start` are single modelled steps observed through strace, not verified",
+    "a panic inside the thread's epilogue is modelled at the one point where the epilogue runs user code, the destructor of the unread result "
+    "(Model/Thread `tDropPanic`; proved: nothing has been released at that point, so the panic handler's releases are the only ones). "
+    "A destructor that panics on the HANDLE's thread (Drop for JoinHandle after a lost CAS, or the caller dropping what join returned) is the "
+    "caller's panic, not the runtime's: it ends that thread (the process, on the main thread) before the shared block is freed; observed, not modelled",
+    "reads through dangling pointers are not observable as such: the allocator wrapper fills released blocks with 0xDD and quarantines them, so that "
+    "such a read yields garbage that shows up as a wrong release / system-call argument or a crash; releases and futex calls on released blocks are observed directly",
 ]
 
 
@@ -1222,11 +1349,12 @@ def layout_tie(ctx, classes):
 def run(ctx, which="C05"):
     quick = ctx.tier == "quick"
     ctx.rule = ("a case = one batch of 1..64 concurrently live threads, each with (closure returns | panics after d us, result class "
-                "zst/u8/u64/[u8;4096]/align64/Box | bool/char/Ordering/field-less enum/Option<u32>/Result<u8,u8>/struct(bool)+Drop [None is not all-zero], "
+                "zst/u8/u64/[u8;4096]/align64/Box | bool/char/Ordering/field-less enum/Option<u32>/Result<u8,u8>/struct(bool)+Drop [None is not all-zero] | "
+                "a value whose destructor panics (always / on a spawned thread only) [the panic handler starts inside the thread's epilogue], "
                 "handle joined | dropped after d' us | dropped at once), run on the real tiny-std threads under "
                 "strace -f, plus fault runs (every stack-mmap and every clone position of a script made to fail); "
                 "distinct_nontrivial = distinct (panic, class, handle action, wait path taken [fast load | EAGAIN | parked | handle won the CAS], "
-                "injected failure) combinations observed")
+                "injected failure, destructor of the unread result panicked on the thread) combinations observed")
     table, cfg = setup(ctx)
     ok = C.lean_prove(ctx, "TinyVerif.Props." + which, drivers=["drv_c05"])
     exes = {}
@@ -1252,6 +1380,15 @@ def run(ctx, which="C05"):
     for mode in ("static", "spie"):
         if mode in exes:
             items += run_scenarios(ctx, exes[mode], cfg, 4 if quick else 40, per, 16, mode)
+    # results whose destructor panics: the panic handler entered from the middle of the epilogue, every handle order
+    sweep = destructor_sweep(ctx.rng, 2 if quick else 12)
+    per_proc = 5
+    sjobs = [sweep[i:i + per_proc] for i in range(0, len(sweep), per_proc)]
+    sitems = run_scenarios(ctx, exes["dyn"], cfg, 0, 0, 0, "destructor-sweep", jobs=sjobs)
+    ctx.extra["destructor_sweep_batches"] = len(sitems)
+    ctx.extra["destructor_panics_on_thread_observed"] = sum(1 for it in items + sitems if not it.get("missing")
+                                                            for i in it["insts"].values() if getattr(i, "dpanic", False))
+    items += sitems
     ctx.extra["scenario_s"] = round(time.time() - t, 1)
     nbad = account(ctx, items, exes["dyn"], pid_kinds=kinds)
     # fault runs
